@@ -89,7 +89,11 @@ func runOnce(kind, repo string, senders, per, rounds int, runID int) (row tr.M, 
 	dir, _ := os.MkdirTemp("", "vsend-")
 	defer os.RemoveAll(dir)
 	id := quickfix.SessionID{BeginString: "FIX.4.2", SenderCompID: "ENG", TargetCompID: "PEER", Qualifier: fmt.Sprintf("r%d", runID)}
-	be, err := vstore.NewBackend(kind, filepath.Join(dir), []quickfix.SessionID{id}, repo)
+	bk := kind
+	if bk == "sqlite" {
+		bk = "sqlitebusy"
+	}
+	be, err := vstore.NewBackend(bk, filepath.Join(dir), []quickfix.SessionID{id}, repo)
 	if err != nil {
 		return nil, err
 	}
